@@ -493,6 +493,16 @@ def describe(c):
         return "%s.%s(%s)" % (recv, c["name"], ", ".join(args))
     if op == "builtin":
         return "%s(%s)" % (c["name"], ", ".join(args))
+    if op == "alias":
+        a = args[0] if args else "?"
+        expr = {"mul": "x * %s" % a, "rmul": "%s * x" % a, "add": "x + a", "radd": "a + x", "addself": "x + x",
+                "slice": "x[%s]" % ":".join(show(e) for e in (c["args"][0].get("l", []))), "list": "list(x)",
+                "sorted": "sorted(x)", "reversed": "reversed(x)"}.get(c["name"], c["name"])
+        mut, _, who = (c.get("key") or "").partition("-")
+        t = {"result": "r", "operand": "x", "other": "a"}.get(who, who)
+        act = {"set": "%s[-1] = 99" % t, "append": "%s.append(99)" % t, "popappend": "%s.pop(); %s.append(98)" % (t, t),
+               "clear": "%s.clear()" % t, "insert": "%s.insert(0, 97)" % t}.get(mut, mut)
+        return "x = %s; %sr = %s; %s; (x, a, r)" % (recv, ("a = %s; " % a) if c["name"] in ("add", "radd") else "a = %s; " % a, expr, act)
     if op == "sort":
         KEYSRC = {"len": "len", "int": "int", "mod3": "lambda x: x % 3", "zero": "lambda x: 0", "first": "lambda x: x[0]",
                   "lower": "lambda x: x.lower()", "neg": "lambda x: -x", "ident": "lambda x: x"}
@@ -558,6 +568,8 @@ def finding_key(c, why):
         classes = ["int-huge" if a["t"] == "int" and abs(int(a["i"])) >= (1 << 20) else k for a, k in zip(args, classes)]
         return "panic:%s%s(%s)" % (name or op, ":" + kind if op != "call" else "", ",".join(classes))
     big = any(k.startswith("int-outside") for k in classes) or (c.get("x") or {}).get("t") == "int" and argclass(c["x"]).startswith("int-outside")
+    if op == "alias":
+        return "alias:%s(%s):%s" % (name, ",".join(classes), c.get("key"))
     if op == "call" and name == "format":
         return "format:%s(%s%s)" % (template_shape(vbytes(c["x"]), r"\{\{|\}\}|\{[^{}]*\}|[{}]"), ",".join(classes),
                                     ";" + ",".join(vbytes(k).decode("latin-1") for k in (c.get("kw") or [])[0::2]) if c.get("kw") else "")
